@@ -382,11 +382,22 @@ func damageCase(w *wire.Writer, r *pbfrun.Runner, base *file, dm *dmg, pos int, 
 		}
 	}
 	f.encode()
+	return observeDamage(w, r, f, dm.name, pos, dm.inBlock, 2)
+}
+
+// observeDamage scans the (already encoded) damaged file with every decoder count and writes the
+// case.  tag 2: the scan must end in an error after the intact blocks; tag 4 (zlib stream without
+// its adler32 trailer, data intact): either that, or success with every object.
+func observeDamage(w *wire.Writer, r *pbfrun.Runner, f *file, name string, pos int, inBlock bool, tag int64) (*wire.Case, error) {
 	inb := map[int]bool{}
-	if dm.inBlock {
+	if inBlock {
 		inb[pos] = true
 	}
 	fds := pbfrun.Describe(f.desc, f.data, f.frames, [3]bool{}, inb)
+	var all []uint64
+	for i := range fds {
+		all = append(all, fds[i].Objs...)
+	}
 	di := -1
 	var exp []uint64
 	for i := range fds {
@@ -396,8 +407,8 @@ func damageCase(w *wire.Writer, r *pbfrun.Runner, base *file, dm *dmg, pos int, 
 		}
 		exp = append(exp, fds[i].Objs...)
 	}
-	c := &wire.Case{Class: "damage:" + dm.name}
-	c.Int(2)
+	c := &wire.Case{Class: "damage:" + name}
+	c.Int(tag)
 	pbfrun.EmitFrames(c, fds)
 	c.Int(int64(di))
 	c.Len(len(procsList))
@@ -419,15 +430,20 @@ func damageCase(w *wire.Writer, r *pbfrun.Runner, base *file, dm *dmg, pos int, 
 		pbfrun.EmitToks(c, o.Objs)
 		c.Int(oc)
 		obsl = append(obsl, ob{p, o.Objs, oc, o.ErrText + o.CrashMsg})
-		if c.OracleFail == "" && (oc != 1 || !eqToks(o.Objs, exp)) {
+		good := oc == 1 && eqToks(o.Objs, exp)
+		if tag == 4 {
+			good = good || (oc == 0 && eqToks(o.Objs, all))
+			w.Count(fmt.Sprintf("%s:outcome=%d", name, oc))
+		}
+		if c.OracleFail == "" && !good {
 			c.OracleFail = fmt.Sprintf("damage %s at block %d, procs %d: observed %d objects outcome %d (%s), expected %d objects and an error",
-				dm.name, pos, p, len(o.Objs), oc, o.ErrText+o.CrashMsg, len(exp))
+				name, pos, p, len(o.Objs), oc, o.ErrText+o.CrashMsg, len(exp))
 		}
 		w.Count(fmt.Sprintf("damage:outcome=%d", oc))
 	}
 	// in-block damage: the damaged block's message tree (read back from the payload bytes with the
 	// independent reader), so that Coq can run the layer-L1 model of the block decoder on it
-	if dm.inBlock {
+	if inBlock {
 		payload := pbfgen.Serialize(pbfgen.BlockTree(f.desc.Blocks[pos]))
 		tree, err := pbfgen.Parse(payload, pbfgen.BlockSchema)
 		if err != nil {
@@ -441,9 +457,9 @@ func damageCase(w *wire.Writer, r *pbfrun.Runner, base *file, dm *dmg, pos int, 
 	} else {
 		c.Bool(false)
 	}
-	c.Desc = map[string]interface{}{"kind": "damage", "class": dm.name, "block": pos, "file_seed": f.seed, "size": len(f.data),
+	c.Desc = map[string]interface{}{"kind": "damage", "class": name, "block": pos, "file_seed": f.seed, "size": len(f.data),
 		"frames": fds, "damaged_frame": di, "observed": obsl, "expected_objects": exp, "file": f.desc}
-	if pos >= 1 && c.OracleFail == "" {
+	if pos >= 1 && c.OracleFail == "" && tag == 2 && len(f.data) < 5000 {
 		lastDamage = func(mut func(objs []uint64, oc int64) ([]uint64, int64)) *wire.Case {
 			d := &wire.Case{Class: "canary", Canary: 1}
 			d.Int(2)
@@ -460,7 +476,7 @@ func damageCase(w *wire.Writer, r *pbfrun.Runner, base *file, dm *dmg, pos int, 
 				d.Int(oc)
 			}
 			d.Bool(false)
-			d.Desc = map[string]interface{}{"kind": "canary of a damage case", "class": dm.name}
+			d.Desc = map[string]interface{}{"kind": "canary of a damage case", "class": name}
 			return d
 		}
 	}
@@ -501,6 +517,53 @@ func wholeCase(w *wire.Writer, r *pbfrun.Runner, f *file, class string) (*wire.C
 	c.Desc = map[string]interface{}{"kind": "whole valid file", "class": class, "file_seed": f.seed, "size": len(f.data),
 		"frames_summary": fmt.Sprintf("%d frames", len(fds)), "observed": seen, "expected_objects": exp}
 	return c, nil
+}
+
+func buildCopy(base *file) *file { return build(base.seed, base.opts) }
+
+// bigBlobFile: header, one ordinary block, and a last OSMData block whose Blob message is exactly
+// blobLen bytes (a raw blob; the PrimitiveBlock is padded with an unknown bytes field, which
+// readers skip).  The frames and the description are extended by hand.
+func bigBlobFile(rng *rand.Rand, blobLen int) (*file, int, error) {
+	f := genFile(rng, 1500, false)
+	for len(f.desc.Blocks) < 2 {
+		f = genFile(rng, 1500, false)
+	}
+	f.encode()
+	last := len(f.desc.Blocks) - 1
+	b := f.desc.Blocks[last]
+	// re-encode without the last block, then append it by hand
+	short := *f.desc
+	short.Blocks = f.desc.Blocks[:last]
+	data, frames := pbfgen.Encode(&short)
+	tree := pbfgen.BlockTree(b)
+	var hb, bb []byte
+	pad := blobLen - 64
+	for try := 0; try < 10; try++ {
+		if pad < 0 {
+			return nil, 0, fmt.Errorf("bigBlobFile: cannot reach %d", blobLen)
+		}
+		t := append(append([]pbfgen.Field{}, tree...), pbfgen.Field{Num: 90, Kind: pbfgen.KBytes, Bytes: make([]byte, pad)})
+		payload := pbfgen.Serialize(t)
+		h, bl := pbfgen.BlobTrees("OSMData", payload, &pbfgen.BlobOpts{})
+		hb, bb = pbfgen.Serialize(h), pbfgen.Serialize(bl)
+		if len(bb) == blobLen {
+			break
+		}
+		pad += blobLen - len(bb)
+		bb = nil
+	}
+	if bb == nil {
+		return nil, 0, fmt.Errorf("bigBlobFile: no fixpoint for %d", blobLen)
+	}
+	off := len(data)
+	data = append(data, byte(len(hb)>>24), byte(len(hb)>>16), byte(len(hb)>>8), byte(len(hb)))
+	frames = append(frames, pbfgen.Frame{Block: last, Kind: "size", Off: off, Len: 4})
+	frames = append(frames, pbfgen.Frame{Block: last, Kind: "header", Off: len(data), Len: len(hb)})
+	data = append(data, hb...)
+	frames = append(frames, pbfgen.Frame{Block: last, Kind: "blob", Off: len(data), Len: len(bb)})
+	data = append(data, bb...)
+	return &file{seed: f.seed, opts: f.opts, desc: f.desc, data: data, frames: frames}, last, nil
 }
 
 // padHeader gives block pos a BlobHeader of exactly n bytes (through indexdata).
@@ -586,6 +649,83 @@ func main() {
 				}
 				w.Add(c)
 			}
+		}
+	}
+
+	// zlib damage once more with a pure-Go build of the decoder (compress/zlib instead of czlib),
+	// and the stream without its adler32 trailer (data intact) with both builds
+	{
+		zr := map[string]*pbfrun.Runner{"cgo": r}
+		if exe, err := pbfrun.BuildVariant("c06", a.Out, "nocgo", "CGO_ENABLED=0"); err != nil {
+			w.Notes = append(w.Notes, "pure-Go build of the harness failed, zlib cases run with the default build only: "+err.Error())
+		} else {
+			r2 := pbfrun.NewRunner()
+			r2.Exe = exe
+			defer r2.Close()
+			zr["purego"] = r2
+		}
+		classes := []struct {
+			name    string
+			corrupt int
+			tag     int64
+		}{{"zlib_checksum", 1, 2}, {"zlib_middle", 2, 2}, {"zlib_header", 4, 2}, {"zlib_trailer", 3, 4}}
+		nz := 2
+		if a.Tier == "thorough" {
+			nz = 6
+		}
+		for i := 0; i < nz; i++ {
+			base := genFile(rng, maxSize, i%3 == 2)
+			for _, build := range []string{"cgo", "purego"} {
+				rr := zr[build]
+				if rr == nil {
+					continue
+				}
+				for _, cl := range classes {
+					if build == "cgo" && cl.tag == 2 {
+						continue // already covered by the damage classes above
+					}
+					poss := []int{}
+					if base.desc.Header != nil {
+						poss = append(poss, -1)
+					}
+					for b := range base.desc.Blocks {
+						poss = append(poss, b)
+					}
+					for _, pos := range poss {
+						f := buildCopy(base)
+						o := opts(f, pos)
+						o.Zlib = true
+						o.Damage = &pbfgen.Damage{CorruptZlib: cl.corrupt}
+						f.encode()
+						c, err := observeDamage(w, rr, f, cl.name+":"+build, pos, false, cl.tag)
+						if err != nil {
+							fail(err)
+						}
+						w.Add(c)
+					}
+				}
+			}
+		}
+	}
+
+	// the blob size limit at its boundary (thorough tier: two files of 32 MiB)
+	if a.Tier == "thorough" {
+		for _, sz := range []int{32*1024*1024 - 1, 32 * 1024 * 1024} {
+			f, pos, err := bigBlobFile(rng, sz)
+			if err != nil {
+				fail(err)
+			}
+			var c *wire.Case
+			if sz < 32*1024*1024 {
+				c, err = wholeCase(w, r, f, "whole:blob_32MiB-1")
+			} else {
+				c, err = observeDamage(w, r, f, "blob_32MiB", pos, false, 2)
+			}
+			if err != nil {
+				fail(err)
+			}
+			c.Desc = map[string]interface{}{"kind": "blob size boundary", "blob_bytes": sz, "oracle": c.OracleFail}
+			w.Add(c)
 		}
 	}
 
